@@ -13,9 +13,9 @@ the connection.
 Theorems on `Iec.Srv104.handleMessage` (step properties, for every state of the server):
 `startdt_answered`, `testfr_answered`, `sframe_stopped_closes`, `send_requires_started`
 (responses), `periodic_not_started` (events: `sendWaitingASDUs` runs only in state STARTED),
-and C05 `not_started_closes` for I-frames.  The STOPDT sequence (S-frame first, con only
-without unconfirmed events) is in the model and compared with the code by the
-correspondence run; its theorem is not yet written (partial).
+and C05 `not_started_closes` for I-frames.  The STOPDT sequence: `stopdt_sequence` (the complete output of the step: S-frame first,
+STOPDT con only without unconfirmed events, resulting state) and `stopdt_con_after_ack` (the deferred con in
+UNCONFIRMED_STOPPED).
 -/
 namespace Iec.Props.C07
 open Iec.Srv104 Iec.KWindow
@@ -126,5 +126,141 @@ theorem send_requires_started (s : Slave) (i : Nat) (asdu : List Nat) (hst : (s.
 theorem periodic_not_started (s : Slave) (i : Nat) (hst : (s.conn i).state ≠ 1) :
     periodic s i = (let r := handleTimeouts s i; if !r.2 then r.1.setConn i { r.1.conn i with isRunning := false } else r.1) := by
   unfold periodic; simp [hst]
+
+/-! ### the STOPDT sequence -/
+
+theorem sendS_ok (s : Slave) (i : Nat) (h : sockOk s i) :
+    sendS s i = emit s (.tx i [0x68, 0x04, 0x01, 0, seqLo (s.conn i).vr, seqHi (s.conn i).vr]) := by
+  unfold sendS; simp [write_ok s i h]
+
+theorem deactivate_i (s : Slave) (i : Nat) (hi : i < s.conns.length) :
+    (deactivate s i).conn i = { (s.conn i) with state := 2 } ∧
+    (deactivate s i).log = s.log ++ (if (s.conn i).isUsed && (s.conn i).state = 1 then [.ev i "DEACTIVATED"] else []) := by
+  unfold deactivate
+  simp only
+  split
+  · refine ⟨?_, by simp [Slave.setConn, emit]⟩
+    rw [conn_setConn _ _ _ (by simpa [emit] using hi)]; rfl
+  · refine ⟨?_, by simp [Slave.setConn]⟩
+    rw [conn_setConn _ _ _ hi]
+
+/-- **STOPDT act: received I-frames are acknowledged first, and STOPDT con is sent only when no event ASDU
+transmitted on the connection is still unacknowledged** — the complete output of the step, for every server state:
+(DEACTIVATED event when the connection was started), then the S-frame with V(R) when anything received is
+unacknowledged, then STOPDT con exactly when the event queue holds no transmitted-but-unconfirmed entry; the connection
+is STOPPED in that case and UNCONFIRMED_STOPPED otherwise (STOPDT con then follows the acknowledging S-frame,
+`stopdt_con_after_ack`). -/
+theorem stopdt_sequence (s : Slave) (i : Nat) (hi : i < s.conns.length) (h : sockOk s i) :
+    let r := handleMessage s i [0x68, 4, 0x13, 0, 0, 0]
+    r.2 = true ∧
+    r.1.log = s.log
+      ++ (if (s.conn i).isUsed && (s.conn i).state = 1 then [.ev i "DEACTIVATED"] else [])
+      ++ (if (s.conn i).unconf > 0 then [.tx i [0x68, 0x04, 0x01, 0, seqLo (s.conn i).vr, seqHi (s.conn i).vr]] else [])
+      ++ (if hasUnconfirmed s i then [] else [.tx i STOPDT_CON]) ∧
+    (r.1.conn i).state = (if hasUnconfirmed s i then 2 else 0) ∧ (r.1.conn i).unconf = 0 := by
+  intro r
+  obtain ⟨hd1, hd2⟩ := deactivate_i s i hi
+  obtain ⟨hdl, hdp, hdn, hdg, _⟩ := deactivate_facts s i
+  -- after the acknowledgement
+  obtain ⟨s2, hs2⟩ : ∃ s2, s2 = (if ((deactivate s i).conn i).unconf > 0 then
+      sendS ((deactivate s i).setConn i { (deactivate s i).conn i with lastConf := some (deactivate s i).now, unconf := 0, t2Triggered := false }) i
+    else deactivate s i) := ⟨_, rfl⟩
+  have f2 : s2.log = s.log ++ (if (s.conn i).isUsed && (s.conn i).state = 1 then [.ev i "DEACTIVATED"] else [])
+        ++ (if (s.conn i).unconf > 0 then [.tx i [0x68, 0x04, 0x01, 0, seqLo (s.conn i).vr, seqHi (s.conn i).vr]] else []) ∧
+      s2.groups = s.groups ∧ s2.p = s.p ∧ s2.conns.length = s.conns.length ∧ (s2.conn i).group = (s.conn i).group ∧
+      (s2.conn i).sock = (s.conn i).sock ∧ (s2.conn i).state = 2 ∧ (s2.conn i).unconf = 0 := by
+    rw [hs2, hd1]
+    by_cases hu : (s.conn i).unconf > 0
+    · simp only [hu, if_true]
+      have hok : sockOk ((deactivate s i).setConn i { ({ (s.conn i) with state := 2 } : Conn) with lastConf := some (deactivate s i).now, unconf := 0, t2Triggered := false }) i := by
+        unfold sockOk; rw [conn_setConn _ _ _ (by rw [hdl]; exact hi)]; exact h
+      rw [sendS_ok _ _ hok, conn_setConn _ _ _ (by rw [hdl]; exact hi)]
+      refine ⟨by simp [emit, Slave.setConn, hd2], hdg, hdp, by simp [emit, Slave.setConn, hdl], ?_⟩
+      have hce : ∀ (x : Slave) (o : Obs), (emit x o).conn i = x.conn i := fun _ _ => rfl
+      rw [hce, conn_setConn _ _ _ (by rw [hdl]; exact hi)]
+      exact ⟨rfl, rfl, rfl, rfl⟩
+    · simp only [hu, if_false, List.append_nil]
+      rw [hd1]
+      exact ⟨hd2, hdg, hdp, hdl, rfl, rfl, rfl, by simp only; omega⟩
+  obtain ⟨l2, g2, p2, n2, gr2, so2, st2, un2⟩ := f2
+  have hu2 : hasUnconfirmed s2 i = hasUnconfirmed s i := by
+    unfold hasUnconfirmed Slave.gidx Slave.grp; rw [g2, p2, gr2]
+  have hr : r = (if hasUnconfirmed s2 i then
+        (s2.setConn i { s2.conn i with nextT3 := s2.now + s2.p.t3 * 1000 }, true)
+      else
+        let s3 := s2.setConn i { s2.conn i with state := 0 }
+        let w := write s3 i STOPDT_CON
+        if w.2 then (w.1.setConn i { w.1.conn i with nextT3 := w.1.now + w.1.p.t3 * 1000 }, true) else (w.1, false)) := by
+    show handleMessage s i [0x68, 4, 0x13, 0, 0, 0] = _
+    unfold handleMessage
+    simp only [List.length_cons, List.length_nil, List.getD_cons_zero, List.getD_cons_succ]
+    simp [← hs2]
+  rw [hr, hu2]
+  by_cases hq : hasUnconfirmed s i = true
+  · simp only [hq, if_true, List.append_nil]
+    refine ⟨trivial, by simp [Slave.setConn, l2], ?_⟩
+    rw [conn_setConn _ _ _ (by rw [n2]; exact hi)]
+    exact ⟨st2, un2⟩
+  · have hq' : hasUnconfirmed s i = false := by simpa using hq
+    simp only [hq', Bool.false_eq_true, if_false]
+    have hok3 : sockOk (s2.setConn i { s2.conn i with state := 0 }) i := by
+      unfold sockOk; rw [conn_setConn _ _ _ (by rw [n2]; exact hi), ]; simp only; rw [so2]; exact h
+    rw [write_ok _ _ hok3]
+    simp only [if_true]
+    refine ⟨trivial, by simp [Slave.setConn, emit, l2], ?_⟩
+    rw [conn_setConn _ _ _ (by simp [emit, Slave.setConn, n2, hi])]
+    show ((s2.setConn i { s2.conn i with state := 0 }).conn i).state = 0 ∧ ((s2.setConn i { s2.conn i with state := 0 }).conn i).unconf = 0
+    rw [conn_setConn _ _ _ (by rw [n2]; exact hi)]
+    exact ⟨rfl, un2⟩
+
+/-- **… and the deferred STOPDT con**: in UNCONFIRMED_STOPPED an S-format APDU with a valid N(R) is answered with
+STOPDT con exactly when, after its acknowledgement has been applied, no transmitted event is left unconfirmed; the
+connection is then STOPPED, and otherwise stays UNCONFIRMED_STOPPED without any output. -/
+theorem stopdt_con_after_ack (s : Slave) (i : Nat) (hi : i < s.conns.length) (h : sockOk s i) (lo hi8 : Nat)
+    (hst : (s.conn i).state = 2) (hv : valid (s.conn i).vs (s.conn i).win ((lo + hi8 * 0x100) / 2) = true) :
+    let s1 := (checkSeqConn s i ((lo + hi8 * 0x100) / 2)).1
+    let r := handleMessage s i [0x68, 4, 0x01, 0, lo, hi8]
+    r.2 = true ∧
+    r.1.log = s.log ++ (if hasUnconfirmed s1 i then [] else [.tx i STOPDT_CON]) ∧
+    (r.1.conn i).state = (if hasUnconfirmed s1 i then 2 else 0) := by
+  intro s1 r
+  have hcs := checkSeqConn_facts s i ((lo + hi8 * 0x100) / 2) hi
+  obtain ⟨w, hw⟩ := checkSeqConn_conn s i ((lo + hi8 * 0x100) / 2) hi
+  simp only at hcs
+  obtain ⟨c1, c2, c3, c4, c5, c6, _⟩ := hcs
+  have hok2 : (checkSeqConn s i ((lo + hi8 * 0x100) / 2)).2 = true := by rw [c1]; exact hv
+  have hs1 : s1 = (checkSeqConn s i ((lo + hi8 * 0x100) / 2)).1 := rfl
+  rw [← hs1] at c2 c3 c4 c5 c6 hw
+  have hst1 : (s1.conn i).state = 2 := by rw [c6, hst]
+  have hr : r = (if !hasUnconfirmed s1 i then
+        let s3 := s1.setConn i { s1.conn i with state := 0 }
+        let wr := write s3 i STOPDT_CON
+        if wr.2 then (wr.1.setConn i { wr.1.conn i with nextT3 := wr.1.now + wr.1.p.t3 * 1000 }, true) else (wr.1, false)
+      else (s1.setConn i { s1.conn i with nextT3 := s1.now + s1.p.t3 * 1000 }, true)) := by
+    show handleMessage s i [0x68, 4, 0x01, 0, lo, hi8] = _
+    unfold handleMessage
+    simp only [List.length_cons, List.length_nil, List.getD_cons_zero, List.getD_cons_succ]
+    generalize hg : checkSeqConn s i ((lo + hi8 * 0x100) / 2) = g at hok2 hs1
+    obtain ⟨g1, g2⟩ := g
+    simp only at hok2 hs1
+    subst hok2
+    subst hs1
+    simp [hst1]
+  rw [hr]
+  by_cases hq : hasUnconfirmed s1 i = true
+  · simp only [hq, Bool.not_true, Bool.false_eq_true, if_false, if_true, List.append_nil]
+    refine ⟨trivial, by simp [Slave.setConn, c2], ?_⟩
+    rw [conn_setConn _ _ _ (by rw [c5]; exact hi)]
+    exact hst1
+  · have hq' : hasUnconfirmed s1 i = false := by simpa using hq
+    simp only [hq', Bool.not_false, if_true, Bool.false_eq_true, if_false]
+    have hok3 : sockOk (s1.setConn i { s1.conn i with state := 0 }) i := by
+      unfold sockOk; rw [conn_setConn _ _ _ (by rw [c5]; exact hi), hw]; exact h
+    rw [write_ok _ _ hok3]
+    simp only [if_true]
+    refine ⟨trivial, by simp [Slave.setConn, emit, c2], ?_⟩
+    rw [conn_setConn _ _ _ (by simp [emit, Slave.setConn, c5, hi])]
+    show ((s1.setConn i { s1.conn i with state := 0 }).conn i).state = 0
+    rw [conn_setConn _ _ _ (by rw [c5]; exact hi)]
 
 end Iec.Props.C07
